@@ -18,13 +18,14 @@ Decided statically (DESIGN.md section 5, C20):
            walks all threads, all chunks, all events in order while holding the registry mutex.
   R-C20-5  purity of the image writers: no mutable object with static / thread storage duration in writeImage, the
            format wrappers and their helpers.
+  R-C20-6  the 64-bit counter value reaches the log through an integer insertion (no conversion to a floating type).
 Not decided: equality of decoded pixel values (run-time contents), JSON escaping of user supplied names,
 nesting of begin/end pairs in the recorded history, what fopen/fwrite/ofstream do.
 """
 import ast
 import re
 
-from rkstatic.x_linform import Poly, Evaluator, show, show_rel
+from rkstatic.x_linform import Poly, Evaluator, show, show_rel, negate, upper_bound, small_model, atom_name
 
 LEVEL = 'other'
 EXPLANATION = (
@@ -72,6 +73,7 @@ class ImgFn:
         self.mins = {}         # min atom -> (Poly, Poly)
         self.bind = {}         # parameter of an inlined helper -> value of the argument
         self.vecs = {}         # local std::vector used as a buffer: decl id -> (name, element size)
+        self.alts = {}         # '@buffer' -> (condition [(Poly, op)], bytes of the heap block used when it holds)
         self.depth = 0
         self.carry = {}        # carry atom -> dict(var, loop, amount)
         self.decl_stack = {}   # local pointer -> loops enclosing its declaration
@@ -487,6 +489,31 @@ def check_write_image(ctx, tu, f):
                             allocs.append((vd, ('array', Poly.const(int(m.group(2)) * esz), esz), list(stack)))
                             img.locals[vd['id']] = ('ptr', '@' + vd.get('name', 'buf'), Poly.const(0), esz)
                 return
+            if k == 'IfStmt':
+                ks_ = [c for c in n.get('inner', ()) if isinstance(c, dict) and c.get('kind')]
+                assigns = [x for x in tu.walk(ks_[1]) if x.get('kind') == 'BinaryOperator' and x.get('opcode') == '=' and
+                           isinstance(img.locals.get(tu.ref_decl(tu.kids(x)[0])), tuple) and
+                           img.locals[tu.ref_decl(tu.kids(x)[0])][0] == 'ptr'] if len(ks_) >= 2 else []
+                if assigns:
+                    # the staging pointer is redirected to a heap block under a condition (small-buffer pattern)
+                    if len(ks_) != 2 or len(assigns) != 1:
+                        raise Undecided('conditional redirection of a buffer pointer that is not `if (c) { p = heap; }`')
+                    pvar = tu.ref_decl(tu.kids(assigns[0])[0])
+                    cur = img.locals[pvar]
+                    if not cur[1].startswith('@') or cur[2] != Poly.const(0):
+                        raise Undecided('conditional redirection of a pointer that is not a staging buffer')
+                    rel = img.ev().rel(ks_[0])
+                    news = [x for x in tu.walk(ks_[1]) if x.get('kind') == 'CXXNewExpr' and x.get('isArray')]
+                    cnt = img.ev().ev(tu.kids(news[0])[0]) if len(news) == 1 and tu.kids(news[0]) else None
+                    if cnt is None:
+                        for x in tu.walk(ks_[1]):
+                            if x.get('kind') == 'CXXMemberCallExpr' and tu.sd(x).get('q', '').split('::')[-1] in ('resize', 'assign') \
+                                    and tu.call_parts(x)[2]:
+                                cnt = img.ev().ev(tu.call_parts(x)[2][0])
+                    if rel is None or len(rel) != 1 or cnt is None:
+                        raise Undecided('condition or size of the heap fallback has no normal form')
+                    img.alts[cur[1]] = (rel, cnt * cur[3])
+                    return
             if k == 'BinaryOperator' and n.get('opcode') == '=':
                 l, r = tu.kids(n)
                 ls = tu.strip(l)
@@ -767,9 +794,27 @@ def check_write_image(ctx, tu, f):
         return
     span = nest['span']
     if span is None:
-        if pv[0] == 'array' or abytes != want_bytes:
-            ctx.violation(R, inst, 'the row buffer holds `%s` bytes; a row needs N_COMP*sizeX*sizeof(COMP_T) = %s'
-                          % (show(abytes), show(want_bytes)), tu.fn_loc(f), key=keyb + 'row-buffer-size')
+        # the buffer(s) the row is staged in, each with the condition under which it is used
+        alt = img.alts.get('@' + vd.get('name', 'buf'))
+        cases_ = [([], abytes, 'the row buffer')] if alt is None else \
+            [([negate(alt[0][0])], abytes, 'the fixed buffer `%s` (used when %s)' % (vd.get('name'), show_rel(negate(alt[0][0])))),
+             (list(alt[0]), alt[1], 'the heap block (used when %s)' % show_rel(alt[0][0]))]
+        for facts_, bytes_, what_ in cases_:
+            d_ = want_bytes - bytes_
+            if d_ == Poly():
+                continue
+            ub_ = upper_bound(d_, [p_ for p_, op_ in facts_ if op_ == '<='], 2 ** 31 - 1)
+            if ub_ is not None and ub_ <= 0:
+                continue
+            wit = small_model(list(facts_) + [(-d_ + 1, '<=')])
+            if wit is None:
+                ctx.undecided(R, inst, '%s holds `%s` bytes; whether a row of %s bytes always fits is not decided'
+                              % (what_, show(bytes_), show(want_bytes)), tu.fn_loc(f))
+            else:
+                ctx.violation(R, inst, '%s holds `%s` bytes; a row needs N_COMP*sizeX*sizeof(COMP_T) = %s bytes, which is more e.g. for '
+                              '%s: the conversion writes beyond the buffer' % (what_, show(bytes_), show(want_bytes),
+                              ', '.join('%s = %d' % (atom_name(a), v_) for a, v_ in sorted(wit.items(), key=lambda kv: repr(kv[0])))),
+                              tu.fn_loc(f), key=keyb + 'row-buffer-size')
             good = False
         per_flush = want_bytes
         flush_depth = 1
@@ -1958,12 +2003,248 @@ def check_recording(ctx, tu):
         f = fs[0]
         n += 1
         check_iteration(ctx, tu, f, R)
+    n += check_registry(ctx, tu, R)
     for q in (TR + 'TraceRecorder::getThreadTraceList',):
         for f in tu.fns(q=q, dep=False):
             if tu.cfg(f) is not None:
                 n += 1
                 check_locked(ctx, tu, f, R)
     ctx.floor(R, n, 7, '4 record functions, getCurrentEventList, saveLog iteration, getThreadTraceList locking')
+
+
+def check_registry(ctx, tu, R):
+    """an entry of the registry threadTrace, once created, is never replaced or removed: its list holds the events
+    the thread recorded (also after the thread has exited)"""
+    n = 0
+    LIST_SP = 'std::shared_ptr<rkcommon::tracing::ThreadEventList>'
+    for f in sorted(tu.functions.values(), key=lambda x: (x['f'], x['l'])):
+        if f.get('rec') != TR + 'TraceRecorder' or f['dep'] or tu.cfg(f) is None or f.get('implicit'):
+            continue
+        g = tu.cfg(f)
+        if not any(x.get('kind') == 'MemberExpr' and tu.member_of_this(x) == 'threadTrace' for b, i, x in g.stmts()):
+            continue
+        n += 1
+        inst = '%s registry' % short_q(f['q'])
+        keyb = '%s|%s|%s|' % (R, tu.fn_file(f), short_q(f['q']))
+
+        def is_slot(e, depth=0):
+            """does e denote the mapped value of a registry entry"""
+            x = tu.strip(e, casts=True)
+            if x is None or depth > 4:
+                return False
+            k = x.get('kind')
+            if k == 'CXXOperatorCallExpr' and tu.sd(x).get('q', '').split('::')[-1] == 'operator[]':
+                o = tu.call_parts(x)[1]
+                return o is not None and tu.member_of_this(o) == 'threadTrace'
+            if k == 'CXXMemberCallExpr' and tu.sd(x).get('q', '').split('::')[-1] == 'at':
+                o = tu.call_parts(x)[1]
+                return o is not None and tu.member_of_this(o) == 'threadTrace'
+            if k == 'MemberExpr' and x.get('name') == 'second':
+                return any(y.get('kind') == 'MemberExpr' and tu.member_of_this(y) == 'threadTrace' for y in tu.walk(x)) or \
+                    any(is_iter(y) for y in tu.walk(x) if y.get('kind') == 'DeclRefExpr')
+            if k == 'DeclRefExpr':
+                vd = tu.node(x.get('referencedDecl', {}).get('id'))
+                if vd is not None and vd.get('kind') == 'VarDecl' and tu.kids(vd) and '&' in vd.get('type', {}).get('qualType', ''):
+                    return is_slot(tu.kids(vd)[0], depth + 1)
+            return False
+
+        def is_iter(y):
+            vd = tu.node(y.get('referencedDecl', {}).get('id'))
+            if vd is None or vd.get('kind') != 'VarDecl' or not tu.kids(vd):
+                return False
+            return any(z.get('kind') == 'CXXMemberCallExpr' and tu.sd(z).get('q', '').split('::')[-1] in ('find', 'begin', 'lower_bound')
+                       and tu.call_parts(z)[1] is not None and tu.member_of_this(tu.call_parts(z)[1]) == 'threadTrace'
+                       for z in tu.walk(tu.kids(vd)[0]))
+
+        writes = []
+        removes = []
+        for b, i, x in g.stmts():
+            k = x.get('kind')
+            if k == 'CXXOperatorCallExpr' and tu.sd(x).get('q', '').split('::')[-1] == 'operator=':
+                o = tu.call_parts(x)[1]
+                if o is not None and is_slot(o):
+                    writes.append((b.id, i, x))
+            if k == 'CXXMemberCallExpr':
+                sd, obj, args = tu.call_parts(x)
+                nm = sd.get('q', '').split('::')[-1]
+                if obj is not None and tu.member_of_this(obj) == 'threadTrace' and nm in ('erase', 'clear', 'extract'):
+                    removes.append((b.id, i, x))
+                if obj is not None and tu.member_of_this(obj) == 'threadTrace' and nm == 'insert_or_assign':
+                    writes.append((b.id, i, x))
+                if obj is not None and is_slot(obj) and nm in ('reset', 'swap'):
+                    writes.append((b.id, i, x))
+        good = True
+        for bid, i, x in removes:
+            ctx.violation(R, inst, '`%s` removes entries of the registry: the events recorded by those threads are no longer written by '
+                          'saveLog' % tu.show(x), tu.loc(x), key=keyb + 'registry-entry-removed')
+            good = False
+        # edges on which the entry is known to be absent / empty
+        absent_edges = set()
+        for b in g.blocks.values():
+            if not b.cond or len(b.succ) != 2:
+                continue
+            c = tu.strip(tu.node(b.cond))
+            while c is not None and c.get('kind') == 'BinaryOperator' and c.get('opcode') in ('&&', '||'):
+                c = tu.strip(tu.kids(c)[1])
+            neg = False
+            while c is not None and c.get('kind') == 'UnaryOperator' and c.get('opcode') == '!':
+                neg = not neg
+                c = tu.strip(tu.kids(c)[0])
+            if c is None:
+                continue
+            absent_when_true = None
+            k = c.get('kind')
+            if k in ('BinaryOperator', 'CXXOperatorCallExpr') and \
+                    (c.get('opcode') in ('==', '!=') or tu.sd(c).get('q', '').split('::')[-1] in ('operator==', 'operator!=')):
+                ks = tu.kids(c) if k == 'BinaryOperator' else tu.kids(c)[1:]
+                eq = (c.get('opcode') == '==') if k == 'BinaryOperator' else tu.sd(c).get('q', '').endswith('==')
+                sides = [tu.strip(y, casts=True) for y in ks]
+                is_end = [y is not None and ((y.get('kind') == 'CXXMemberCallExpr' and tu.sd(y).get('q', '').split('::')[-1] in ('end', 'cend')
+                                              and tu.call_parts(y)[1] is not None and tu.member_of_this(tu.call_parts(y)[1]) == 'threadTrace')
+                                             or y.get('kind') == 'CXXNullPtrLiteralExpr') for y in sides]
+                if len(sides) == 2 and any(is_end):
+                    other = sides[1] if is_end[0] else sides[0]
+                    if other is not None and ((other.get('kind') == 'DeclRefExpr' and (is_iter(other) or is_slot(other))) or is_slot(other)
+                                              or any(z.get('kind') == 'MemberExpr' and tu.member_of_this(z) == 'threadTrace' for z in tu.walk(other))):
+                        absent_when_true = eq
+            elif LIST_SP in re.sub(r'\bconst\s+', '', tu.sd(c).get('ct', '')) or \
+                    (k == 'CXXMemberCallExpr' and tu.sd(c).get('q', '').endswith('operator bool') and tu.call_parts(c)[1] is not None
+                     and is_slot(tu.call_parts(c)[1])):
+                tgt = tu.call_parts(c)[1] if k == 'CXXMemberCallExpr' else c
+                if is_slot(tgt):
+                    absent_when_true = False
+            if absent_when_true is None:
+                continue
+            if neg:
+                absent_when_true = not absent_when_true
+            absent_edges.add((b.id, 0 if absent_when_true else 1))
+        for bid, i, x in writes:
+            # is the write reachable without passing an edge on which the entry is known to be absent?
+            seen, work, hit = set(), [g.entry], False
+            while work:
+                cur = work.pop()
+                if cur in seen:
+                    continue
+                seen.add(cur)
+                if cur == bid:
+                    hit = True
+                    break
+                for si, sc in enumerate(g.blocks[cur].succ):
+                    if sc is not None and (cur, si) not in absent_edges:
+                        work.append(sc)
+            if hit:
+                ctx.violation(R, inst, '`%s` can replace the list of an entry that already exists (no test that the entry is absent or '
+                              'empty lies on every path to it): the events that list holds - e.g. those of a thread that has exited and '
+                              'whose id was reused - are dropped from the log' % tu.show(x), tu.loc(x),
+                              key=keyb + 'registry-entry-replaced')
+                good = False
+        if good:
+            ctx.ok(R, inst, '%d write(s) to registry entries, each only on paths where the entry is absent / empty; no removal'
+                   % len(writes), tu.fn_loc(f))
+    return n
+
+
+def check_value_fidelity(ctx, tu):
+    """R-C20-6: the 64-bit counter value of an event reaches the log through an integer insertion; a conversion to a
+    floating type on the way loses digits (ostream prints 6 significant digits)"""
+    R = 'R-C20-6'
+    ctx.describe(R, 'the uint64 counter value of an event is streamed as an integer: no conversion to float / double between '
+                 'TraceEvent::counterValue and the stream insertion (helpers followed)')
+    fs = [f for f in tu.fns(q=TR + 'TraceRecorder::saveLog', dep=False) if tu.cfg(f) is not None]
+    if not fs:
+        ctx.broken('%s: anchor TraceRecorder::saveLog not found' % R)
+        return
+    root = fs[0]
+    keyb = '%s|%s|TraceRecorder::saveLog|' % (R, tu.fn_file(root))
+    inst = 'TraceRecorder::saveLog counter values'
+    results = []       # ('ok' | 'bad' | 'unknown', node, text)
+
+    def follow(expr, fn, depth):
+        """expr evaluates to the counter value (as an integer so far): what happens to it"""
+        cur = expr
+        hops = 0
+        while hops < 12:
+            hops += 1
+            par = tu.par(cur)
+            if par is None:
+                results.append(('unknown', cur, 'use not understood'))
+                return
+            k = par.get('kind')
+            if k in ('ImplicitCastExpr', 'CStyleCastExpr', 'CXXStaticCastExpr', 'CXXFunctionalCastExpr'):
+                ck = par.get('castKind')
+                ty = par.get('type', {}).get('qualType', '')
+                if ck == 'IntegralToFloating' or re.search(r'\b(float|double)\b', ty):
+                    results.append(('bad', par, 'converted to `%s`' % ty))
+                    return
+                cur = par
+                continue
+            if k in ('ParenExpr', 'MaterializeTemporaryExpr', 'ExprWithCleanups', 'ConstantExpr'):
+                cur = par
+                continue
+            if k in ('CXXOperatorCallExpr', 'CXXMemberCallExpr') and tu.sd(par).get('q', '').split('::')[-1] == 'operator<<':
+                results.append(('ok', par, 'inserted as `%s`' % tu.sd(tu.strip(cur)).get('ct', cur.get('type', {}).get('qualType', '?'))))
+                return
+            if k in ('CallExpr', 'CXXMemberCallExpr'):
+                callee = tu.callee_fn(par)
+                args = tu.call_parts(par)[2]
+                idx = [i for i, a in enumerate(args) if a.get('id') == cur.get('id')]
+                if callee is None or tu.body(callee) is None or not idx or idx[0] >= len(callee.get('params', [])) or depth > 3:
+                    results.append(('unknown', par, 'passed to `%s`' % tu.show(par)))
+                    return
+                prm = callee['params'][idx[0]]
+                if re.search(r'\b(float|double)\b', prm['ct']):
+                    results.append(('bad', par, 'passed to parameter `%s` of type `%s` of %s' % (prm['name'], prm['ct'], callee['q'].replace(TR, ''))))
+                    return
+                uses = [x for x in tu.walk(tu.body(callee)) if x.get('kind') == 'DeclRefExpr' and
+                        x.get('referencedDecl', {}).get('id') == prm['id']]
+                if not uses:
+                    results.append(('unknown', par, 'parameter `%s` is not used' % prm['name']))
+                for u in uses:
+                    follow(u, callee, depth + 1)
+                return
+            if k in ('BinaryOperator',) and par.get('opcode') in ('==', '!=', '<', '>', '<=', '>='):
+                return      # a comparison does not print the value
+            if k == 'VarDecl':
+                if re.search(r'\b(float|double)\b', par.get('type', {}).get('qualType', '')):
+                    results.append(('bad', par, 'stored in `%s %s`' % (par.get('type', {}).get('qualType'), par.get('name'))))
+                    return
+                uses = [x for x in tu.walk(tu.body(fn)) if x.get('kind') == 'DeclRefExpr' and
+                        x.get('referencedDecl', {}).get('id') == par['id']]
+                for u in uses:
+                    follow(u, fn, depth + 1)
+                return
+            results.append(('unknown', par, 'used in `%s`' % tu.show(par)))
+            return
+
+    # saveLog and the tracing functions it reaches
+    seen, work = set(), [root]
+    while work:
+        fn = work.pop()
+        if fn['id'] in seen:
+            continue
+        seen.add(fn['id'])
+        for x in tu.walk(tu.body(fn)):
+            if x.get('kind') == 'MemberExpr' and x.get('name') == 'counterValue' and tu.kids(x) and \
+                    'TraceEvent' in tu.sd(tu.strip(tu.kids(x)[0])).get('ct', tu.kids(x)[0].get('type', {}).get('qualType', '')):
+                follow(x, fn, 0)
+            if x.get('kind') in ('CallExpr', 'CXXMemberCallExpr'):
+                cf = tu.callee_fn(x)
+                if cf is not None and cf['q'].startswith(TR) and tu.body(cf) is not None and len(seen) < 40:
+                    work.append(cf)
+    bad = [r for r in results if r[0] == 'bad']
+    unk = [r for r in results if r[0] == 'unknown']
+    oks = [r for r in results if r[0] == 'ok']
+    if bad:
+        _, node, text = bad[0]
+        ctx.violation(R, inst, 'the counter value (uint64_t TraceEvent::counterValue) is %s before it is written: the stream prints a '
+                      'double with 6 significant digits, so values from 1000000 on are rounded and shown in exponent form; the '
+                      'value in the log is not the value recorded' % text, tu.loc(node) if tu.sd(node) else tu.fn_loc(root),
+                      key=keyb + 'counter-value-converted')
+    elif unk or not oks:
+        ctx.undecided(R, inst, 'how the counter value reaches the stream is not understood (%s)'
+                      % (unk[0][2] if unk else 'no use of counterValue found'), tu.fn_loc(root))
+    else:
+        ctx.ok(R, inst, '%d insertion(s) of counterValue, all with an integer operand type' % len(oks), tu.fn_loc(root))
 
 
 def _back_guarded(g, tu, bid, idx, adds, empties):
@@ -2370,11 +2651,13 @@ def run(ctx):
     check_images(ctx, tu)
     check_savelog(ctx, tt)
     check_recording(ctx, tt)
+    check_value_fidelity(ctx, tt)
     if ctx.tier == 'thorough':
         tu2, tt2 = ctx.front.parse_many([dict(unit='drivers/c20_writers.cpp', config='DEBUG', std='gnu++17', simd=False),
                                          dict(unit='rkcommon/tracing/Tracing.cpp', config='DEBUG', std='gnu++17')])
         check_images(ctx, tu2)
         check_savelog(ctx, tt2)
         check_recording(ctx, tt2)
+        check_value_fidelity(ctx, tt2)
     from rkstatic import selftest
     selftest.run(ctx)
